@@ -155,6 +155,14 @@ type Step struct {
 	// Reexec > 0: op "reexec" binds and executes again the statement prepared by step Reexec-1 (an earlier
 	// extended-protocol SELECT), without a new Parse
 	Reexec int `json:"reexec,omitempty"`
+	// statement shapes of c04.go (GenProgStep): op insert with ON CONFLICT, op update with Assigns / Where,
+	// op delete, op insert-select
+	OnConflict string   `json:"on_conflict,omitempty"` // insert: "" | "nothing" (ON CONFLICT (id) DO NOTHING) | "nothing-bare" (no target) | "update"
+	Assigns    []Assign `json:"assigns,omitempty"`     // update: SET items (replaces Set/SetVals); insert + on_conflict update: DO UPDATE SET items
+	Where      *Where   `json:"where,omitempty"`       // update / delete: <column> = <value> on the key, a searchable or a consistently tokenized column
+	SrcTable   int      `json:"src_table,omitempty"`   // insert-select: the table read
+	SrcCols    []int    `json:"src_cols,omitempty"`    // insert-select: source column per target column (entry of the key column unused)
+	NewID      int64    `json:"new_id,omitempty"`      // insert-select: constant written into the key column
 }
 
 // GenStep draws a statement over the tables; nextID provides unique ids per table.
@@ -265,10 +273,12 @@ func GenStep(t *rapid.T, ts []TableSpec, nextID []int64, label string) Step {
 
 // Rendered is a statement ready to send.
 type Rendered struct {
-	nvals  int
+	nvals    int
+	firstRow map[int]string // INSERT: text of the first VALUES row per column index (c04.go: param-again)
 	SQL    string
 	Params []Val
 	PTypes []pgsess.ColType // logical type of each parameter
+	Notes  []string         // c04.go: how the items outside VALUES were rendered (assign:placeholder, where:literal, ...)
 }
 
 // lit renders a value for column c. Explicit casts are only generated where a real database would accept
@@ -321,10 +331,18 @@ func Render(ts []TableSpec, s Step) Rendered {
 				if ci > 0 {
 					b.WriteString(", ")
 				}
-				b.WriteString(r.lit(v, tb.Cols[cols[ci]], s, true))
+				txt := r.lit(v, tb.Cols[cols[ci]], s, true)
+				if ri == 0 {
+					if r.firstRow == nil {
+						r.firstRow = map[int]string{}
+					}
+					r.firstRow[cols[ci]] = txt
+				}
+				b.WriteString(txt)
 			}
 			b.WriteString(")")
 		}
+		renderOnConflict(&r, &b, tb, s) // c04.go
 		if len(s.Returning) > 0 {
 			fmt.Fprintf(&b, " RETURNING %s", colNames(s.Returning))
 		}
@@ -336,9 +354,11 @@ func Render(ts []TableSpec, s Step) Rendered {
 			}
 			fmt.Fprintf(&b, "%s = %s", tb.Cols[c].Name, r.lit(s.SetVals[i], tb.Cols[c], s, true))
 		}
+		renderAssigns(&r, &b, tb, s, "") // c04.go
 		if s.WhereID != nil {
 			fmt.Fprintf(&b, " WHERE id = %d", *s.WhereID)
 		}
+		renderWhere(&r, &b, tb, s) // c04.go
 		if len(s.Returning) > 0 {
 			fmt.Fprintf(&b, " RETURNING %s", colNames(s.Returning))
 		}
@@ -368,6 +388,8 @@ func Render(ts []TableSpec, s Step) Rendered {
 		if s.WhereID != nil {
 			fmt.Fprintf(&b, " WHERE %sid = %d", qual, *s.WhereID)
 		}
+	default:
+		renderProg(&r, &b, tb, ts, s) // c04.go
 	}
 	r.SQL = b.String()
 	return r
